@@ -187,6 +187,16 @@ EDITS = [
     consumed = last_exec.wait_for_versions
     return all(state.get_version(name) > consumed.get(name, 0) for name in node.wait_for)
 """)], ["C17"], "_wait_for_satisfied: loop -> two comprehensions (the CORRECT twin of seeded change C17-F)"),
+    ("B19", "runners/_shared/template_async.py", [("""                results = [r for _, r in sorted(zip(order, results_list, strict=False))]
+                if error_handling == "raise":
+                    for result in results:
+""", """                results = [r for _, r in sorted(zip(order, results_list, strict=False))]
+                if error_handling == "raise":
+                    for result in list(results):
+""")], ["C10"], "AsyncRunnerTemplate.map: the raise-mode scan re-headed onto a copy of `results` (the CORRECT twin of seeded change C10-I)"),
+    ("B20", "runners/_shared/template_sync.py", [("""            for variation_inputs in input_variations:
+""", """            for variation_inputs in iter(input_variations):
+""")], ["C10"], "SyncRunnerTemplate.map: the item loop re-headed onto iter(input_variations)"),
     ("B18", "graph/validation.py", None, ["C19"], "placeholder (filled below)"),
     ("B14", "graph/validation.py", None, ["C19"], "placeholder (filled below)"),
 ]
